@@ -9,6 +9,7 @@ import (
 	"regexp"
 	"strconv"
 	"strings"
+	"sync"
 	"testing"
 
 	"filippo.io/sunlight/internal/ctlog"
@@ -55,10 +56,14 @@ func partialRemovalAllowed(rel string, size int64, before map[string]fileInfo) (
 }
 
 type c18Case struct {
-	Size      int      `json:"size"`
-	Hazards   []string `json:"hazards"`
-	LockAhead bool     `json:"lock_ahead"`
-	Seed      int64    `json:"seed"`
+	Size    int      `json:"size"`
+	Hazards []string `json:"hazards"`
+	// Ahead: "" | "lock" (the process died right after the lock commit: no tile
+	// of the next tree on disk) | "lock+tiles" (lock commit and all tiles done,
+	// the checkpoint upload did not happen)
+	Ahead  string `json:"ahead"`
+	AheadN int    `json:"ahead_n"`
+	Seed   int64  `json:"seed"`
 }
 
 func runAftersun(cfgPath string) (string, int) {
@@ -76,21 +81,49 @@ func runAftersun(cfgPath string) (string, int) {
 
 func TestC18Cleanup(t *testing.T) {
 	r := NewRun(t, "C18", "cleanup")
-	r.Rule = "real log directories produced by the real sequencer on LocalBackend (sizes around 255-257, 511-513, 767-769 and seeded, grown in rounds of varied size so that stale partials exist at data/names/0/1 levels) with planted hazards {partial without its full tile, empty full tile, partial right of the edge, temp-file leftovers in and next to a partial directory, unrelated file, partial for a tile beyond the tree, lock store ahead of storage}; the built cmd/partial-aftersun runs on them; oracle: every removed path is a partial tile (or its emptied directory) whose non-empty full tile existed and lies strictly left of the right edge, nothing else changed, the trees at the published and the lock checkpoint are completely readable from disk, LoadLog succeeds and a further round commits, a second run removes nothing; distinct = (size, hazard set)"
+	r.Rule = "real log directories produced by the real sequencer on LocalBackend (sizes around 255-257, 511-513, 767-769 and seeded, grown in rounds of varied size so that stale partials exist at data/names/0/1 levels) with planted hazards {partial without its full tile, empty full tile, partial right of the edge, temp-file leftovers in and next to a partial directory, unrelated file, partial for a tile beyond the tree, a full tile left of the edge emptied or replaced by a directory while its partial survives} and with the lock store ahead of the published checkpoint {process died right after the lock commit; lock commit and all tiles of the next tree written but the checkpoint upload did not happen, the next tree crossing a tile boundary in a fixed part of the cases}; the built cmd/partial-aftersun runs on them; oracle: every removed path is a partial tile (or its emptied directory) whose non-empty full tile existed and lies strictly left of the right edge, nothing else changed, the trees at the published and the lock checkpoint are completely readable from disk, LoadLog succeeds and a further round commits, a second run removes nothing; distinct = (size, hazard set)"
 	if _, err := os.Stat(verifBin("partial-aftersun")); err != nil {
 		r.Inconcl("partial-aftersun binary not built: %v", err)
 		return
 	}
 	rng := NewRng(r.Seed, "c18")
 	sizes := []int{255, 256, 257, 300, 511, 512, 513, 600, 767, 769}
-	hazards := []string{"partial-without-full", "empty-full", "partial-right-of-edge", "tmp-in-partial", "tmp-next-to-partial", "unrelated-file", "partial-beyond-tree", "immutable-full-removed-flag"}
-	n := pick(20, 300)
+	hazards := []string{"partial-without-full", "empty-full", "partial-right-of-edge", "tmp-in-partial", "tmp-next-to-partial", "unrelated-file", "partial-beyond-tree", "emptied-full-left-of-edge", "full-is-directory-left-of-edge"}
+	n := pick(24, 300)
 	for i := 0; i < n; i++ {
 		crng := rng.Fork(fmt.Sprint(i))
-		cc := &c18Case{Size: pickOne(crng, sizes) + crng.Intn(3)*crng.Intn(40), Seed: int64(crng.U64() >> 1), LockAhead: crng.Intn(4) == 0}
+		cc := &c18Case{Size: pickOne(crng, sizes) + crng.Intn(3)*crng.Intn(40), Seed: int64(crng.U64() >> 1)}
+		switch crng.Intn(6) {
+		case 0:
+			cc.Ahead = "lock"
+		case 1, 2:
+			cc.Ahead = "lock+tiles"
+		}
 		for _, h := range hazards {
-			if crng.Intn(4) == 0 {
+			if crng.Intn(5) == 0 && (!strings.HasSuffix(h, "-left-of-edge") || crng.Intn(2) == 0) {
 				cc.Hazards = append(cc.Hazards, h)
+			}
+		}
+		// fixed part of every run: the next tree crosses a tile boundary while
+		// the published checkpoint still has its partial right edge; a broken
+		// full tile left of the edge
+		switch i {
+		case 0, 1, 2:
+			cc.Size, cc.Ahead, cc.Hazards = []int{255, 510, 767}[i], "lock+tiles", nil
+		case 3:
+			cc.Size, cc.Ahead, cc.Hazards = 600, "", []string{"emptied-full-left-of-edge"}
+		case 4:
+			cc.Size, cc.Ahead, cc.Hazards = 513, "", []string{"full-is-directory-left-of-edge"}
+		}
+		for _, h := range cc.Hazards {
+			if strings.HasSuffix(h, "-left-of-edge") {
+				cc.Ahead = "" // a damaged directory is judged on removals only
+			}
+		}
+		if cc.Ahead != "" {
+			cc.AheadN = 3
+			if i < 3 || crng.Bool() {
+				cc.AheadN = 256 - cc.Size%256 + 1 + crng.Intn(20) // crosses the next tile boundary
 			}
 		}
 		if !mine(i) {
@@ -115,7 +148,8 @@ func runC18Case(r *Run, cc *c18Case) {
 	d.GrowTo(rng, cc.Size)
 	viol := func(id, f string, a ...any) { r.Violate(id, cc, f, a...) }
 	r.Eval(1)
-	r.DistinctKey(fmt.Sprintf("%d/%v/%v", cc.Size, cc.Hazards, cc.LockAhead))
+	r.DistinctKey(fmt.Sprintf("%d/%v/%v/%d", cc.Size, cc.Hazards, cc.Ahead, cc.AheadN))
+	preBroken := false
 	size := int64(cc.Size)
 	// plant hazards
 	write := func(rel string, data []byte) {
@@ -145,15 +179,51 @@ func runC18Case(r *Run, cc *c18Case) {
 			write("notes.txt", []byte("operator notes"))
 		case "partial-beyond-tree":
 			write("tile/1/x001/234.p/1", rng.Bytes(32))
-		case "immutable-full-removed-flag":
+		case "emptied-full-left-of-edge", "full-is-directory-left-of-edge":
+			// a log that is already damaged: the entry NNN next to NNN.p/ is an
+			// empty file (name persisted, data lost) or a directory. The partial
+			// may be the only surviving copy; its full tile does not exist.
+			if size < 256 {
+				continue
+			}
+			kind := pickOne(rng, []string{"0", "data", "names"})
+			full := filepath.Join(dir, "tile", kind, "000")
+			exec.Command("chattr", "-i", full).Run()
+			if h == "emptied-full-left-of-edge" {
+				if err := os.Truncate(full, 0); err != nil {
+					panic(err)
+				}
+			} else {
+				os.Remove(full)
+				if err := os.Mkdir(full, 0o755); err != nil {
+					panic(err)
+				}
+			}
+			if kind == "0" {
+				write("tile/0/000.p/77", rng.Bytes(77*32))
+			} else {
+				write("tile/"+kind+"/000.p/77", refGzip(rng.Bytes(300)))
+			}
+			preBroken = true
 		}
 	}
-	if cc.LockAhead {
+	var aheadPes []*ctlog.PendingLogEntry
+	for i := 0; i < cc.AheadN; i++ {
+		e := genEntry(rng, cheapShape(rng))
+		d.Log.VerifAddLeafToPool(context.Background(), e, false)
+		aheadPes = append(aheadPes, e)
+	}
+	switch cc.Ahead {
+	case "lock+tiles":
+		d.FailKeys.setFail("checkpoint", true)
+		// the failed checkpoint upload is a non-fatal error (reported to the
+		// submitters, not to the sequencer loop); the published size is checked below
+		d.Log.VerifSequence(context.Background())
+		d.FailKeys.setFail("checkpoint", false)
+		d.Close()
+	case "lock":
 		// crash after the CAS: lock store is ahead of storage
 		in := d.Cfg.Lock.(*LockBackend).In
-		for i := 0; i < 3; i++ {
-			d.Log.VerifAddLeafToPool(context.Background(), genEntry(rng, ShapeBlobX509), false)
-		}
 		// only the lock backend goes through the harness instance here: its first mutating call is the CAS
 		_, want := (&RoundPlan{Crash: &CrashSpec{Phase: "idx", Idx: 0, Applied: true}}).Install(in)
 		done := make(chan struct{})
@@ -166,8 +236,14 @@ func runC18Case(r *Run, cc *c18Case) {
 	}
 	pub := d.PublishedSTH()
 	if pub == nil || pub.Size != size {
-		r.Inconcl("published checkpoint unreadable or of unexpected size: %v want %d lockahead=%v", pub, size, cc.LockAhead)
+		r.Inconcl("published checkpoint unreadable or of unexpected size: %v want %d ahead=%v", pub, size, cc.Ahead)
 		return
+	}
+	if cc.Ahead != "" {
+		r.Count("cases_lock_ahead_"+cc.Ahead, 1)
+		if (size+int64(cc.AheadN))/256 > size/256 {
+			r.Count("cases_next_tree_crosses_tile_boundary", 1)
+		}
 	}
 	cfgPath := filepath.Join(base, "sunlight.yaml")
 	os.WriteFile(cfgPath, []byte(fmt.Sprintf("logs:\n  - shortname: c18\n    localdirectory: %s\n", dir)), 0o644)
@@ -201,6 +277,11 @@ func runC18Case(r *Run, cc *c18Case) {
 	}
 	r.Count("partials_removed", int64(removed))
 	r.Count("paths_compared", int64(len(before)))
+	if preBroken {
+		// the directory was damaged before the tool ran: only the removals are judged
+		r.Count("cases_damaged_full_tile", 1)
+		return
+	}
 	// the trees are still completely readable
 	if msg := auditDiskTree(dir, size, d.Truth); msg != "" {
 		viol("tree-unreadable-after-cleanup", "tree at the published checkpoint (size %d) after cleanup: %s", size, msg)
@@ -212,24 +293,19 @@ func runC18Case(r *Run, cc *c18Case) {
 		return
 	}
 	d.Log = l
-	if cc.LockAhead {
-		// the three crashed entries are part of the lock-committed tree; learn them from disk for the audit
+	if cc.Ahead != "" {
+		// the entries of the unpublished round are part of the lock-committed tree
 		raw, _ := d.W.LockGet(d.LogID())
-		if lsth, err := refVerifyRFC6962Checkpoint(raw, d.Name, d.Key.Public()); err == nil && lsth.Size > size {
-			n := (lsth.Size - 1) / 256
-			w := int(lsth.Size - n*256)
-			if b, err := os.ReadFile(filepath.Join(dir, filepath.FromSlash(refTilePath(TileCoord{-1, n, w})))); err == nil {
-				if rawTile, err := refGunzip(b); err == nil {
-					if es, err := refDecodeDataTile(rawTile, w); err == nil {
-						for i := int64(len(d.Truth)); i < lsth.Size; i++ {
-							d.Truth = append(d.Truth, es[i-n*256])
-						}
-					}
-				}
-			}
-			if msg := auditDiskTree(dir, lsth.Size, d.Truth); msg != "" {
-				viol("lock-tree-unreadable-after-cleanup", "tree at the lock checkpoint (size %d) after cleanup and recovery: %s", lsth.Size, msg)
-			}
+		lsth, err := refVerifyRFC6962Checkpoint(raw, d.Name, d.Key.Public())
+		if err != nil || lsth.Size != size+int64(cc.AheadN) {
+			r.Inconcl("lock checkpoint after the unpublished round: %v %v", lsth, err)
+			return
+		}
+		for i, pe := range aheadPes {
+			d.Truth = append(d.Truth, pendingToRef(pe, size+int64(i), lsth.Timestamp))
+		}
+		if msg := auditDiskTree(dir, lsth.Size, d.Truth); msg != "" {
+			viol("lock-tree-unreadable-after-cleanup", "tree at the lock checkpoint (size %d) after cleanup and recovery: %s", lsth.Size, msg)
 		}
 	}
 	if err := d.Grow(rng, 2); err != nil {
@@ -293,7 +369,7 @@ func runC18Mirror(r *Run, rng *Rng, hn int) {
 	if err := e.Start(); err != nil {
 		panic(err)
 	}
-	logLen := 900
+	logLen := 1400
 	l := newWitLog(rng.Fork("log"), fmt.Sprintf("verif.example/log-c18m-%d", hn), logLen, nil, 0)
 	if err := e.AddLogs(true, l); err != nil {
 		panic(err)
@@ -318,6 +394,32 @@ func runC18Mirror(r *Run, rng *Rng, hn int) {
 		sizes = append(sizes, size)
 	}
 	info["sizes"] = sizes
+	if _, m0 := cr.state(); (hn%2 == 0) && m0%256 != 0 && int(m0/256+1)*256+42 <= logLen {
+		// tiles ahead of the mirror checkpoint: an upload that crosses the next
+		// tile boundary writes its tiles, then its commit (lock Replace) fails.
+		// The full tile next to the mirror checkpoint's right-edge partial exists.
+		target := int(m0/256+1)*256 + 1 + rng.Intn(40)
+		cr.addCheckpoint(target)
+		var mu sync.Mutex
+		armed := true
+		e.In.Plan = func(c *Call) Decision {
+			mu.Lock()
+			defer mu.Unlock()
+			if armed && c.Kind == OpLockReplace {
+				armed = false
+				return Decision{Apply: false, Err: errInjected}
+			}
+			return decideOK
+		}
+		code, _ := cr.postEntries(cr.entriesBody(m0, int64(target), nil, "ok", int64(target)), false, int64(target), "tiles-ahead")
+		e.In.Plan = nil
+		info["tiles_ahead"] = map[string]any{"mirror": m0, "target": target, "status": code}
+		if _, m1 := cr.state(); m1 == m0 && code != 200 {
+			r.Count("cases_tiles_ahead_of_mirror_checkpoint", 1)
+		} else {
+			r.Count(fmt.Sprintf("tiles_ahead_attempt_status_%d", code), 1)
+		}
+	}
 	_, msize := cr.state()
 	mdir := filepath.Join(wdir, "mirror", fmt.Sprintf("%x", refSHA([]byte(l.Origin))))
 	// hazards
